@@ -37,6 +37,8 @@ inductive RunErr where
   /-- numpy `ValueError` of `get_all_statistics` on an empty error array (evo_rpe, ratio relation with
   every reference distance zero): evo does not store a result -/
   | valueError
+  /-- `ZeroDivisionError` of `umeyama_alignment` on zero points (`n_to_align` leaves no pose) -/
+  | zeroDiv
 deriving DecidableEq, Repr
 
 /-- stamp, pose, index of the pose in the input file -/
@@ -153,7 +155,10 @@ def alignStep (o : CommonOpts) (P : Params) (ref est : List (Pose Rat)) : Except
   match alignKind o.align o.correctScale with
   | none => .ok est
   | some k =>
-      if Ume.umeRefuses (Align.alignInputs o.nToAlign est ref).1 (Align.alignInputs o.nToAlign est ref).2
+      if Ume.shapeMismatch (Align.alignInputs o.nToAlign est ref).1 (Align.alignInputs o.nToAlign est ref).2
+      then .error .geometry
+      else if (Align.alignInputs o.nToAlign est ref).1.isEmpty then .error .zeroDiv
+      else if Ume.umeRefuses (Align.alignInputs o.nToAlign est ref).1 (Align.alignInputs o.nToAlign est ref).2
       then .error .geometry
       else .ok (Align.alignApply (alignMode k) P.umeR P.umeT P.umeS est)
 
@@ -363,7 +368,7 @@ def readParams (l : List String) : Option (Params × List String) :=
 def showErr : RunErr → String
   | .filter => "E:FilterException" | .traj => "E:TrajectoryException" | .sync => "E:SyncException"
   | .geometry => "E:GeometryException" | .metrics => "E:MetricsException" | .lie => "E:LieAlgebraException"
-  | .badParams => "E:BAD-PARAMS" | .valueError => "E:ValueError"
+  | .badParams => "E:BAD-PARAMS" | .valueError => "E:ValueError" | .zeroDiv => "E:ZeroDivisionError"
 
 def showUnit : Option UnitName → String
   | none => "-" | some u => u.toString
